@@ -863,6 +863,13 @@ class EventBus:
 
     async def _run_loop(self) -> None:
         """Main event processing loop"""
+        # This task may have been created from inside a handler (when the first dispatch to this bus happens there)
+        # and has then inherited that handler's context: it must not believe it already holds the global lock
+        # or that it is running inside that handler
+        holds_global_lock.set(False)
+        inside_handler_context.set(False)
+        _current_event_context.set(None)
+        _current_handler_id_context.set(None)
         try:
             while self._is_running:
                 try:
